@@ -169,7 +169,8 @@ fn oracle(c: &PlCase, cx: &mut CaseCtx) -> Result<(), String> {
         "state" => "act_state",
         _ => "act_notify",
     });
-    cx.class_if(c.content.to_string().contains("\"5") || c.content.to_string().contains("\"4"), "string_levels");
+    cx.class_if(c.content.to_string().contains("\"5") || c.content.to_string().contains("\"4") || c.content.to_string().contains("\" "), "string_levels");
+    cx.class_if(c.content.to_string().contains("\" ") || c.content.to_string().contains("\\n\""), "padded_string_levels");
     cx.nontrivial_if(boundary);
     if helper != rules {
         return Err(format!("room version {}: {what} = {helper} but the {} {} it; power levels {} target membership {}", c.version, if c.action == "notify" { "push condition" } else { "authorization rules" }, if rules { "accept" } else { "reject" }, c.content, c.target_membership));
@@ -179,7 +180,13 @@ fn oracle(c: &PlCase, cx: &mut CaseCtx) -> Result<(), String> {
 
 fn lvl(x: i64, string: bool) -> Value {
     if string {
-        json!(x.to_string())
+        // before v10 levels may be strings read with Python's int(): surrounding whitespace is
+        // part of what both the helpers and the authorization rules must read alike
+        match x.rem_euclid(3) {
+            0 => json!(format!(" {x} ")),
+            1 => json!(x.to_string()),
+            _ => json!(format!("{x}\n")),
+        }
     } else {
         json!(x)
     }
@@ -409,7 +416,7 @@ pub fn run(ck: &mut Check) {
             oracle,
         );
     }
-    for cls in ["act_ban", "act_kick", "act_unban", "act_invite", "act_message", "act_state", "act_notify", "helper_yes", "helper_no", "boundary_level", "string_levels"] {
+    for cls in ["act_ban", "act_kick", "act_unban", "act_invite", "act_message", "act_state", "act_notify", "helper_yes", "helper_no", "boundary_level", "string_levels", "padded_string_levels"] {
         ck.floor("threshold_cells", cls, 100);
     }
     let creator = std::sync::Arc::new(creator_cells());
